@@ -359,6 +359,10 @@ func (vc *VC) addObl(kind, name string, st *State, goal string, p token.Pos, tag
 					} else if kind == "inv-step" {
 						// secondary candidates: used only for goals without bound variables of their own
 						o.Secondary = append(o.Secondary, v.S)
+						if strings.Contains(goal, "(exists ") {
+							// a counter that was just incremented: the position processed in this step is one below it
+							o.Cands = append(o.Cands, Sub(v.S, "1"))
+						}
 					}
 				}
 			}
@@ -375,6 +379,31 @@ func (vc *VC) addObl(kind, name string, st *State, goal string, p token.Pos, tag
 		}
 		if inner != nil && o.Mark > inner.mark {
 			o.CutLo, o.CutHi = vc.entryMark, inner.mark
+		}
+	}
+	if kind == "inv-step" && strings.Contains(goal, "(exists ") && len(o.Cands) > 4 {
+		// witnesses of a loop step: the positions just processed come first (range indices and their successors,
+		// which addObl put in as v, v+1), and only a few candidates are offered: every candidate is a copy of the body
+		var first, rest []string
+		for _, a := range sortedAllocs(st.locals) {
+			if a.Comment == "rangeindex" {
+				if v := st.locals[a]; v.K == KInt {
+					first = append(first, v.S, Add(v.S, "1"))
+				}
+			}
+		}
+		isFirst := map[string]bool{}
+		for _, f := range first {
+			isFirst[f] = true
+		}
+		for _, c := range o.Cands {
+			if !isFirst[c] {
+				rest = append(rest, c)
+			}
+		}
+		o.Cands = append(first, rest...)
+		if len(o.Cands) > 4 {
+			o.Cands = o.Cands[:4]
 		}
 	}
 	vc.obls = append(vc.obls, o)
